@@ -163,9 +163,12 @@ func genScenario(rng *Rng, kind string) *Scenario {
 		}
 	}
 	// pre-checks
-	if (rng.Chance(1, 3) && kind != "core") || kind == "precheck" {
+	if (rng.Chance(1, 3) && kind != "core") || kind == "precheck" || kind == "corepc" {
 		for i := range s.tasks {
-			if rng.Chance(1, 3) {
+			// corepc: InitialDagIns hands a task with several parents to Push once per path that reaches it; when a
+			// pre-check fires the verdict is then written, and the parser told, as many times.  The Engine model pushes
+			// a task once, so the acceptor's scope excludes pre-checks on multi-parent tasks (DESIGN.md 0.8).
+			if rng.Chance(1, 3) && (kind != "corepc" || len(s.tasks[i].deps) <= 1) {
 				act := []entity.ActiveAction{entity.ActiveActionSkip, entity.ActiveActionBlock}[rng.Intn(2)]
 				cond := entity.TaskCondition{Source: entity.TaskConditionSourceVars, Key: "v", Op: entity.OperatorIn, Values: []string{"1"}}
 				switch rng.Intn(4) {
@@ -251,6 +254,16 @@ func genScenario(rng *Rng, kind string) *Scenario {
 			for k := 1 + rng.Intn(2); k > 0; k-- {
 				s.crashAt = append(s.crashAt, 2+rng.Intn(40))
 			}
+		}
+	case "corepc":
+		// the scope of the Engine model with pre-checks: skip / block checks on variables and shared data, continue
+		// commands for blocked tasks, failures, retry commands, crashes; no cancel, no injected store failures
+		s.core = true
+		s.continues = 1 + rng.Intn(2)
+		s.retries = rng.Intn(3)
+		s.cmdMidFlight = rng.Chance(1, 3)
+		if rng.Chance(1, 3) {
+			s.crashAt = append(s.crashAt, 2+rng.Intn(40))
 		}
 	case "duppush":
 		// independent tasks, one executor worker: pushes queue up behind the busy worker; t1 fails and is
@@ -902,7 +915,9 @@ func runScenario(w *World, rng *Rng, s *Scenario, maxSteps int) *runResult {
 				}
 			}
 		}
-		if s.cmdMidFlight && s.retries > 0 && !closed && !e.anyIns(hasCmd) && rng.Chance(1, 6) {
+		// (in the scope of the Engine model one commander call at a time: two overlapping calls both pass the
+		// "no command pending" test and the second overwrites the first - monitor clause (11,6), other kinds)
+		if s.cmdMidFlight && s.retries > 0 && !closed && !e.anyIns(hasCmd) && rng.Chance(1, 6) && !(s.core && e.callInFlight(6)) {
 			if f := e.tasksWithStatus("failed", "canceled"); len(f) > 0 && len(e.tasksWithStatus("running", "ending")) > 0 {
 				s.retries--
 				ids := f
